@@ -61,8 +61,9 @@ ASSUMPTIONS = [
     "are always given their application (the loaders index the key unconditionally)",
     "parse without memory type: the result is compared when the memory type it reports has the same segment table, otherwise only success is required",
 ]
-FLOORS = {"init>0": 0.15, "segs>=2": 0.20, "parse:mem_type": 0.50, "app:mbi": 0.10, "app:hab": 0.05, "app:ahab": 0.02, "floating": 0.01,
-          "pattern:ones": 0.01, "size:short": 0.01, "size:over": 0.01}
+FLOORS = {"init>0": 0.15, "segs>=2": 0.12, "parse:mem_type": 0.60, "parse:no_mem_type": 0.25, "app:mbi": 0.10, "app:hab": 0.10, "app:ahab": 0.08,
+          "floating": 0.03, "pattern:ones": 0.01, "size:short": 0.015, "size:over": 0.007, "init_as:name": 0.04, "form:yaml": 0.01,
+          "fcb:foreign": 0.005, "xmcd:flexspi_ram/full": 0.005}
 
 FIX = os.path.join(VERIF_DIR, "fixtures", "c14")
 HAB_FILES = ("hab_rt1024_9606.bin", "hab_rt1064_11060.bin")
@@ -759,7 +760,7 @@ def _layout_strategy():
                     # without its predecessor the floating container lands on the predecessor's offset: not a distinct input
                     present = "primary_image_container_set" in segs and draw(st.integers(0, 3)) > 0
                 else:
-                    present = not (can_skip_app and len(tab.names) > 1 and draw(st.integers(0, 11)) == 0)
+                    present = not (can_skip_app and len(tab.names) > 1) or draw(st.sampled_from([True] * 11 + [False]))
                 if present:
                     segs[name] = {"variant": draw(st.integers(0, 3))}
                 continue
